@@ -47,6 +47,9 @@ pub struct IoScenario {
     pub cut_after: Option<u32>,
     pub chunk: u32,
     pub rb: u32,
+    /// the sender (already on the second endpoint) flushes and travels on to a third endpoint before the write entry
+    /// with this index, and the stream is continued there
+    pub move_before: Option<usize>,
 }
 
 #[derive(Default)]
@@ -81,6 +84,16 @@ impl Scenario for IoScenario {
                     return;
                 }
             };
+            let mut second = None;
+            if p.move_before.is_some() {
+                match super::c04::base_pair_named::<Ship, Ship, (), ()>(&env, "B2", 3, "C", 4, mk(), mk(), link).await {
+                    Ok(((t, r0, q1, q2), (t0, r, q3, q4))) => second = Some((t, r, (r0, t0, q1, q2, q3, q4))),
+                    Err(e) => {
+                        o2.lock().unwrap().err = Some(e);
+                        return;
+                    }
+                }
+            }
             let (tx, rx) = match p.declared {
                 Some(n) => rio::sized::<C>(n),
                 None => rio::channel::<C>(),
@@ -133,9 +146,26 @@ impl Scenario for IoScenario {
             let o3 = o2.clone();
             let writes = p.writes.clone();
             let end = p.end;
+            let move_before = p.move_before;
             let w = env.spawn("writer", writer_tag, async move {
                 let mut off = 0;
-                for wr in writes {
+                let mut second = second;
+                for (wi, wr) in writes.into_iter().enumerate() {
+                    if move_before == Some(wi) {
+                        if let Some((t2, r2, _)) = second.as_mut() {
+                            let r = wtx.flush().await;
+                            o3.lock().unwrap().write_results.push(format!("flush-before-move:{}", r.as_ref().map(|_| "ok".to_string()).unwrap_or_else(|e| format!("{:?}", e.kind()))));
+                            let (s, r) = tokio::join!(t2.send(Ship::Tx(wtx)), r2.recv());
+                            match (s, r) {
+                                (Ok(()), Ok(Some(Ship::Tx(t)))) => wtx = t,
+                                (s, r) => {
+                                    o3.lock().unwrap().write_results.push(format!("move-failed:{:?}/{:?}", s.err().map(|e| e.to_string()), r.map(|_| ()).map_err(|e| e.to_string())));
+                                    o3.lock().unwrap().end_result = Some("move-failed".into());
+                                    return;
+                                }
+                            }
+                        }
+                    }
                     match wr {
                         None => {
                             let r = wtx.flush().await;
@@ -330,8 +360,18 @@ pub fn grid(tier: Tier) -> Vec<Arc<dyn Scenario>> {
                 for end in [EndHow::Shutdown, EndHow::FlushDrop, EndHow::Drop] {
                     for ship_receiver in [true, false] {
                         let read_buf = [1usize, cs as usize, l + 1][(l + parts.len()) % 3];
-                        out.push(Arc::new(IoScenario { writes: ws.clone(), declared, end, read_buf, ship_receiver, cut_after: None, chunk: cs, rb }));
+                        out.push(Arc::new(IoScenario { writes: ws.clone(), declared, end, read_buf, ship_receiver, cut_after: None, chunk: cs, rb, move_before: None }));
                     }
+                }
+            }
+        }
+    }
+    // the sender moves on to a third endpoint in the middle of the stream
+    for (writes, total) in [(vec![Some(5usize), Some(5)], 10u64), (vec![Some(9), None, Some(8), Some(1)], 18), (vec![Some(1), Some(16)], 17)] {
+        for declared in [None, Some(total), Some(total - 1), Some(total + 1)] {
+            for mv in 1..writes.len() {
+                for end in [EndHow::Shutdown, EndHow::FlushDrop] {
+                    out.push(Arc::new(IoScenario { writes: writes.clone(), declared, end, read_buf: 8, ship_receiver: false, cut_after: None, chunk: cs, rb, move_before: Some(mv) }));
                 }
             }
         }
@@ -340,7 +380,7 @@ pub fn grid(tier: Tier) -> Vec<Arc<dyn Scenario>> {
     for declared in [None, Some(25u64)] {
         for ship_receiver in [true, false] {
             for cut in 0..(if tier == Tier::Quick { 14 } else { 24 }) {
-                out.push(Arc::new(IoScenario { writes: vec![Some(9), None, Some(16)], declared, end: EndHow::Shutdown, read_buf: 8, ship_receiver, cut_after: Some(cut), chunk: cs, rb }));
+                out.push(Arc::new(IoScenario { writes: vec![Some(9), None, Some(16)], declared, end: EndHow::Shutdown, read_buf: 8, ship_receiver, cut_after: Some(cut), chunk: cs, rb, move_before: None }));
             }
         }
     }
@@ -350,10 +390,10 @@ pub fn grid(tier: Tier) -> Vec<Arc<dyn Scenario>> {
 pub fn core(_tier: Tier) -> Vec<Arc<dyn Scenario>> {
     let (cs, rb) = (8u32, 16u32);
     vec![
-        Arc::new(IoScenario { writes: vec![Some(9), Some(0), Some(8)], declared: None, end: EndHow::Shutdown, read_buf: 8, ship_receiver: true, cut_after: None, chunk: cs, rb }),
-        Arc::new(IoScenario { writes: vec![Some(17)], declared: Some(17), end: EndHow::FlushDrop, read_buf: 1, ship_receiver: false, cut_after: None, chunk: cs, rb }),
-        Arc::new(IoScenario { writes: vec![Some(8), Some(9)], declared: None, end: EndHow::Drop, read_buf: 18, ship_receiver: true, cut_after: None, chunk: cs, rb }),
-        Arc::new(IoScenario { writes: vec![Some(1), Some(16)], declared: Some(18), end: EndHow::Shutdown, read_buf: 8, ship_receiver: true, cut_after: None, chunk: cs, rb }),
+        Arc::new(IoScenario { writes: vec![Some(9), Some(0), Some(8)], declared: None, end: EndHow::Shutdown, read_buf: 8, ship_receiver: true, cut_after: None, chunk: cs, rb, move_before: None }),
+        Arc::new(IoScenario { writes: vec![Some(17)], declared: Some(17), end: EndHow::FlushDrop, read_buf: 1, ship_receiver: false, cut_after: None, chunk: cs, rb, move_before: None }),
+        Arc::new(IoScenario { writes: vec![Some(8), Some(9)], declared: None, end: EndHow::Drop, read_buf: 18, ship_receiver: true, cut_after: None, chunk: cs, rb, move_before: None }),
+        Arc::new(IoScenario { writes: vec![Some(1), Some(16)], declared: Some(18), end: EndHow::Shutdown, read_buf: 8, ship_receiver: true, cut_after: None, chunk: cs, rb, move_before: None }),
     ]
 }
 
